@@ -82,6 +82,11 @@ Theorem C12_in_set_negative_refuted :
 Proof. vm_compute. reflexivity. Qed.
 Print Assumptions C12_in_set_negative_refuted.
 
+Theorem C12_in_set_empty_string_refuted :
+  parse_set (set_print_toks [SNum false 1 []; SStr []]) = Some [SNum false 1 []].
+Proof. vm_compute. reflexivity. Qed.
+Print Assumptions C12_in_set_empty_string_refuted.
+
 (* a regex literal with a raw line feed prints verbatim and is rejected by the delimited regex reader *)
 Theorem C12_regex_newline_refuted :
   regex_delim (regex_escape [97; 10; 98] ++ [47]) [] = None /\ regex_raw ([97; 10; 98] ++ [47]) true [] = Some ([97; 10; 98], []).
